@@ -280,19 +280,44 @@ pub fn execute(sc: &Scenario) -> Outcome {
                                 Violation::new("validate_error_kind", "kind".into(), format!("validate() error is not of kind Validation: {:?}", e.kind())),
                             );
                         }
-                        // every failing example is named, and nothing else: one entry per failure
-                        let body = msg.split_once(": ").map(|(_, b)| b).unwrap_or(&msg);
-                        let entries = body.matches("failed to validate true ").count();
-                        let all_named = exp.iter().all(|x| msg.contains(x.as_str()));
-                        if entries != exp.len() || !all_named {
+                        // every failing example is named (as often as it fails), and no example
+                        // that passes is named; the wording around the examples is not constrained
+                        let mut missing = vec![];
+                        let mut distinct: Vec<&String> = vec![];
+                        for x in &exp {
+                            if !distinct.contains(&x) {
+                                distinct.push(x);
+                            }
+                        }
+                        for x in &distinct {
+                            let fails = exp.iter().filter(|y| y == x).count();
+                            // occurrences that are not part of a longer failing example's text
+                            let named = msg.matches(x.as_str()).count();
+                            let inside_others: usize = distinct
+                                .iter()
+                                .filter(|o| o.len() > x.len() && o.contains(x.as_str()))
+                                .map(|o| exp.iter().filter(|y| y == o).count() * o.matches(x.as_str()).count())
+                                .sum();
+                            if named < fails + inside_others {
+                                missing.push(format!("{} (fails {} times, named {} times)", x, fails, named.saturating_sub(inside_others)));
+                            }
+                        }
+                        let mut extra = vec![];
+                        for t in r.true_positives.iter().chain(r.true_negatives.iter()) {
+                            let text = format!("{:?}", t);
+                            if !exp.contains(&text) && !exp.iter().any(|f| f.contains(&text)) && msg.contains(&text) && !extra.contains(&text) {
+                                extra.push(text);
+                            }
+                        }
+                        if !missing.is_empty() || !extra.is_empty() {
                             push_violation(
                                 &mut vs,
                                 Violation::new(
                                     "validate_error_does_not_name_failing_examples",
                                     if *sw == 0 { "unoptimised".into() } else { "optimised".into() },
                                     format!(
-                                        "validate() of the {} rule reports {} entries but matches() says {} examples fail ({:?}); message: {}",
-                                        which, entries, exp.len(), exp, msg
+                                        "validate() of the {} rule: matches() says {} examples fail; not named (often enough): {:?}; named although they pass: {:?}; message: {}",
+                                        which, exp.len(), missing, extra, msg
                                     ),
                                 ),
                             );
